@@ -116,12 +116,15 @@ class PySMTType(object):
         return self.name
 
     def as_smtlib(self, funstyle: bool=True) -> str:
+        from pysmt.utils import quote
         name = self.name
+        if self.custom_type and name is not None:
+            name = quote(name)
         if self.args:
             assert self.basename is not None
             args = " ".join([arg.as_smtlib(funstyle=False) \
                              for arg in self.args])
-            name = "(" + self.basename + " " + args + ")"
+            name = "(" + quote(self.basename) + " " + args + ")"
         if funstyle:
             return "() %s" % name
         else:
